@@ -72,11 +72,6 @@ transfers every operand the property needs to its result. -/
 theorem builtin_table_covers_partial :
     (fixedCases.all fun c => covers T5.handled T5.rows c.1 c.2) = true := by decide
 
-/-- the known shape of F3: `min`/`max` transferred only under an exactly-two-operands guard. -/
-def pinnedMinMaxDefect (rows : List Row) : Bool :=
-  rows.any fun r => r.names.contains "min" && r.names.contains "max" && r.arity == some 2 &&
-    r.transfers.contains (.arg 0, .result) && r.transfers.contains (.arg 1, .result)
-
 theorem minmax_status_bool :
     ((coversAllArities T5.rows "min" && coversAllArities T5.rows "max") || pinnedMinMaxDefect T5.rows) = true := by
   decide
